@@ -417,7 +417,11 @@ def cart2geodetic(x, y, z, ellipsoid=None):
             B = B0.copy()
             B0 = np.arctan(z/np.hypot(x, y) * ((1-e2*N/(N+h))**(-1)))
 
-        lat = np.rad2deg(B)
+        # The newest iterate and the height that belongs to it (B lags one
+        # step behind, which costs centimetres in h close to the poles):
+        N = ellipsoid[0] / np.sqrt(1 - e2 * np.sin(B0)**2)
+        h = np.hypot(x, y) / np.cos(B0) - N
+        lat = np.rad2deg(B0)
 
     return h, lat, lon
 
